@@ -9,6 +9,7 @@
 From Coq Require Import QArith Qminmax List Bool Arith.
 From WSI Require Import Vqip Pow Tank Arc QTank Distrib Run TankLaws ArcLaws QTankLaws QueueLaws DistribLaws.
 From WSI Require Net NetLaws.
+From WSI Require Kinds TimeArea Boundary Demand DemandLaws.
 Import ListNotations.
 Open Scope Q_scope.
 
@@ -91,3 +92,23 @@ Print Assumptions C01_network_every_node_balances_over_a_run.
 Theorem C01_network_wiring_check_is_sound : forall s, Net.net_wfb s = true -> NetLaws.wf s.
 Proof. exact NetLaws.net_wfb_sound. Qed.
 Print Assumptions C01_network_wiring_check_is_sound.
+
+(* ---- a node class with boundary terms: Demand / ResidentialDemand (coq/Demand.v, tied by family demand) ----
+   create_demand against any neighbours meeting the reply contract: the in-arcs record exactly what the node books as
+   received (a declared out-term), the out-arcs record exactly what it books as generated (declared in-term) less what
+   it books as backed up (declared out-term) - so (arc inflow + total_demand) - (arc outflow + total_backup +
+   total_received) is unchanged by create_demand apart from replacing the received account, i.e. zero after it in a
+   timestep that started with empty accounts; volume and every additive pollutant, any items and type filters. *)
+Theorem C01_demand_node_keeps_its_declared_accounts : forall S (P : port S) (K : contract S P),
+  (forall s v, okS S P K s -> wet v -> forall k, vol (snd (p_push_set P s v)) <= 0 -> get (adds (snd (p_push_set P s v))) k == 0) ->
+  forall maxiter (n n' : Demand.dmnode S) its,
+  star_ok S P K (Demand.dm_ins S n) -> star_ok S P K (Demand.dm_outs S n) -> (forall i, In i its -> wet (fst i)) ->
+  Demand.dm_create S P maxiter n its = Some n' ->
+  star_ok S P K (Demand.dm_ins S n') /\ star_ok S P K (Demand.dm_outs S n') /\
+  forall c, conserved c ->
+    sumvin S c (Demand.dm_ins S n') - sumvin S c (Demand.dm_ins S n) == cmp c (Demand.dm_received S n') /\
+    sumvin S c (Demand.dm_outs S n') - sumvin S c (Demand.dm_outs S n) ==
+      (cmp c (Demand.dm_demand S n') - cmp c (Demand.dm_demand S n)) - (cmp c (Demand.dm_backup S n') - cmp c (Demand.dm_backup S n)) /\
+    cmp c (Demand.dm_demand S n') - cmp c (Demand.dm_demand S n) == DemandLaws.isum c its.
+Proof. exact DemandLaws.dm_create_books. Qed.
+Print Assumptions C01_demand_node_keeps_its_declared_accounts.
